@@ -58,16 +58,57 @@ Fixpoint wf_attr (d : node) : bool :=
   | NSet i _ => has_anchor_attr i
   end.
 
-(* the matched node object is not ALSO used as a mapping key or a set member
-   (YAML allows `? *alias`; then the code renames the key / re-adds the member,
-   which a value substitution cannot express: see the known finding F24) *)
-Fixpoint keys_sets_clean (poid roid : N) (d : node) : bool :=
+(* ---- aliases used as mapping KEYS (YAML allows `? *alias`) ----
+   A key that IS the matched node object and is anchor-capable is a true alias
+   of the changed node: it is replaced by the new node like every other alias
+   ([ksubst]); entries keep their places and values.  (The code refuses the
+   change when the new key already exists in that mapping: fix 7612ed9,
+   formerly known finding F24.) *)
+Definition kdesignated (roid : N) (k : node) : bool :=
+  N.eqb (node_oid k) roid && has_anchor_attr (node_info k).
+
+Section KSubst.
+  Variable K : node -> bool.
+  Variable repl : node.
+  Fixpoint ksubst (d : node) : node :=
+    match d with
+    | NLeaf _ _ => d
+    | NMap i kvs => NMap i (map (fun kv => (if K (fst kv) then repl else fst kv, ksubst (snd kv))) kvs)
+    | NSeq i els => NSeq i (map ksubst els)
+    | NSet _ _ => d
+    end.
+End KSubst.
+
+(* the keys of every mapping are pairwise different (==): true of every loaded
+   document (ruamel rejects duplicate keys) *)
+Definition mkey_eq (a b : node) : bool :=
+  match a, b with NLeaf _ x, NLeaf _ y => py_eq x y | _, _ => false end.
+Fixpoint mkeys_nodup (ks : list node) : bool :=
+  match ks with
+  | [] => true
+  | k :: r => forallb (fun k' => negb (mkey_eq k k')) r && mkeys_nodup r
+  end.
+Fixpoint mkeys_distinct (d : node) : bool :=
+  match d with
+  | NLeaf _ _ => true
+  | NMap _ kvs => mkeys_nodup (map fst kvs) && forallb (fun kv => mkeys_distinct (snd kv)) kvs
+  | NSeq _ els => forallb mkeys_distinct els
+  | NSet _ _ => true
+  end.
+
+(* the matched node object is not a member of a set (the code then re-adds the
+   member, which a substitution cannot express), and it is ONE object: at most
+   one key of a mapping, and of one class (where it is a renamed key and also
+   that entry's value, the value is anchor-capable too) *)
+Fixpoint alias_clean (poid roid : N) (d : node) : bool :=
   match d with
   | NLeaf _ _ => true
   | NMap i kvs =>
-      forallb (fun kv => negb (N.eqb (node_oid (fst kv)) roid && has_anchor_attr (node_info (fst kv)))
-                         && keys_sets_clean poid roid (snd kv)) kvs
-  | NSeq i els => forallb (keys_sets_clean poid roid) els
+      Nat.leb (length (filter (fun kv => N.eqb (node_oid (fst kv)) roid) kvs)) 1 &&
+      forallb (fun kv => (negb (kdesignated roid (fst kv)) || negb (N.eqb (node_oid (snd kv)) roid)
+                          || has_anchor_attr (node_info (snd kv)))
+                         && alias_clean poid roid (snd kv)) kvs
+  | NSeq i els => forallb (alias_clean poid roid) els
   | NSet i els =>
       forallb (fun e => negb (N.eqb (node_oid e) roid && (N.eqb (oid i) poid || has_anchor_attr (node_info e)))) els
   end.
